@@ -75,7 +75,11 @@ def _make_exception_proxy(exception, message):
           pass  # Unset on the original, or read-only.
   # Instance attributes shadow class-level attributes of the same name on the
   # original; they have to do so on the proxy as well (normal lookup finds the
-  # class-level attribute before `__getattr__` is consulted).
+  # class-level attribute before `__getattr__` is consulted). The stand-in's
+  # instance dict becomes a copy of the original's, not a superset of it: what
+  # the class's own `__new__` stored when the stand-in was built from `args`
+  # must not shadow class-level attributes the original reads.
+  proxy.__dict__.clear()
   proxy.__dict__.update(getattr(exception, '__dict__', {}))
   ExceptionProxy.__qualname__ = type(exception).__qualname__
   return proxy
